@@ -165,6 +165,19 @@ def force_rebuild(repo):
     import glob
     import shutil
     td = target_dir(repo)
+    # freshness is judged by CONTENT: a digest of every source file of the workspace crates and of
+    # the harness files is kept in the target directory; the build records are dropped whenever it
+    # differs from the digest of the last build (cargo itself only looks at file times)
+    digest = tree_digest(repo)
+    stamp = os.path.join(td, '.verif_tree_digest')
+    try:
+        if open(stamp).read().strip() == digest:
+            return 0
+    except OSError:
+        pass
+    os.makedirs(td, exist_ok=True)
+    with open(stamp, 'w') as fh:
+        fh.write(digest)
     n = 0
     for crate in WORKSPACE_CRATES:
         for d in glob.glob(os.path.join(td, 'kani', '*', 'debug', 'build', crate)) + \
@@ -172,6 +185,32 @@ def force_rebuild(repo):
             shutil.rmtree(d, ignore_errors=True)
             n += 1
     return n
+
+
+def tree_digest(repo, extra_dirs=()):
+    """sha256 over the content of the workspace's Rust sources and manifests and of the harness files"""
+    import hashlib
+    h = hashlib.sha256()
+    roots = [os.path.join(repo, 'crates'), os.path.join(repo, 'Cargo.toml'), os.path.join(repo, 'Cargo.lock'), KANI_DIR]
+    roots += list(extra_dirs)
+    files = []
+    for r in roots:
+        if os.path.isfile(r):
+            files.append(r)
+            continue
+        for dp, dn, fn in os.walk(r):
+            dn[:] = [d for d in dn if d not in ('target', '.git')]
+            for f in fn:
+                if f.endswith(('.rs', '.toml', '.lock')):
+                    files.append(os.path.join(dp, f))
+    for f in sorted(files):
+        h.update(f.encode())
+        try:
+            with open(f, 'rb') as fh:
+                h.update(hashlib.sha256(fh.read()).digest())
+        except OSError:
+            h.update(b'?')
+    return h.hexdigest()
 
 
 def ensure_gen(repo):
